@@ -57,7 +57,10 @@ pub fn format_number(number: f64, thousands_separator: String, decimal_separator
     let trunc_size = trunc_part.len();
     let mut trunc_formated = String::new();
 
-    if number < 0.0 {
+    /* A negative number that is rounded to zero is printed as zero, '-0' is not a number anybody types */
+    let all_zero = formated_number.chars().all(|ch| ch == '0' || ch == '.');
+
+    if number < 0.0 && !all_zero {
         trunc_formated.push('-');
     }
 
